@@ -67,12 +67,12 @@ ASSUMPTIONS = [
     "wrapper); shown messages = incompatible_call diagnostics on that line",
 ]
 FLOORS = {
-    "quick": {"distinct_nontrivial": 24000, "bodies": 800, "systematic_bodies": 2000, "ref_checked": 50000,
+    "quick": {"distinct_nontrivial": 24000, "bodies": 800, "systematic_bodies": 2300, "ref_checked": 50000,
               "ref_decided": 50000, "law_checked": 15000, "kind_UNKNOWN": 3000, "kind_DEFAULT": 15000,
               "errors_fired": 25000},
-    "thorough": {"distinct_nontrivial": 100000, "bodies": 8000, "systematic_bodies": 2000, "ref_checked": 300000,
-                 "ref_decided": 300000, "law_checked": 80000, "kind_UNKNOWN": 20000, "kind_DEFAULT": 100000,
-                 "errors_fired": 120000},
+    "thorough": {"distinct_nontrivial": 140000, "bodies": 8000, "systematic_bodies": 2300, "ref_checked": 300000,
+                 "ref_decided": 280000, "law_checked": 70000, "kind_UNKNOWN": 27000, "kind_DEFAULT": 118000,
+                 "errors_fired": 110000},
 }
 NSHARDS = 16
 WATCHDOG_S = {"quick": 900, "thorough": 7200}
@@ -470,14 +470,16 @@ def ref_cond(c, env, kinds):
         stop = t == "or"
         live, out = [env], []
         for sub in c[1]:
-            nxt = []
+            nxt = {}
             for e in live:
                 for v, e2 in ref_cond(sub, e, kinds):
-                    if v == stop:
-                        out.append((v, e2))
-                    else:
-                        nxt.append(e2)
-            live = nxt
+                    # silent: do narrowings made by an operand hold for the operands after it / for the outcome
+                    for e3 in ([e2, e] if e2 != e else [e]):
+                        if v == stop:
+                            out.append((v, e3))
+                        else:
+                            nxt[_freeze(e3)] = e3
+            live = list(nxt.values())
         return out + [(not stop, e) for e in live]
     if t == "ver":  # "Version and platform checks": evaluated by Python
         return [(bool(eval(c[1], {"sys": sys})), env)]
@@ -1509,6 +1511,10 @@ def systematic_cases():
             i1, i2, i3 = ["isof", "x", t1, e1], ["isof", "x", t2, e2], ["isof", "x", t3, False]
             yield "S3any", _fn1([["if", [[i1, [["if", [[i2, [["ret", "R0"]]]], None]]]], None],
                                  ["if", [[i3, [["ret", "R1"]]]], None], ["ret", "R2"]]), anys
+    for t1, t2, t3 in itertools.product(["int", "bool", "str", "object", "B"], repeat=3):
+        for op1, op2, e2, e3 in itertools.product(("and", "or"), ("and", "or"), (False, None), (False, None)):
+            cond = [op2, [[op1, [["isof", "x", t1, False], ["isof", "x", t2, e2]]], ["isof", "x", t3, e3]]]
+            yield "S3anybool", _fn1([["if", [[cond, [["ret", "R0"]]]], None], ["ret", "R1"]]), anys[:1]
     for t1, t2 in itertools.product(SYS_TYPES[:8], repeat=2):
         for op in ("and", "or"):
             for n1, n2 in itertools.product([False, True], repeat=2):
